@@ -1,5 +1,6 @@
 import Utv.Model.C20
 import Utv.Model.C20Reg
+import Utv.Model.C20Reg2
 import Utv.Util.J
 open Lean Utv.J Utv.C20
 
@@ -119,12 +120,49 @@ def handleReg (j : Json) : Json :=
     ("model_label", match bad with | some (_, l) => Json.str l | none => Json.null),
     ("outs", Json.arr outs.toArray), ("pcs", Json.arr pcs.toArray), ("post", Json.arr post.toArray),
     ("alone", Json.arr (progs.map fun ops => Json.arr ((Reg.answers W r0.entries ops).map resJson).toArray).toArray)]
+/-- the registry as it is after fixes/C20-register-race.patch -/
+def replayReg2 (W : Utv.C16.World) (co : Bool) :
+    Reg2.Sys → List (Nat × String) → Nat → Reg2.Sys × Option (Nat × String)
+  | s, [], _ => (s, none)
+  | s, (tid, lab) :: rest, k =>
+    let want := (s.th tid).pc.label
+    if want != lab then (s, some (k, want)) else replayReg2 W co (s.step W co tid) rest (k + 1)
+
+def handleReg2 (j : Json) : Json :=
+  let W := mkRWorld (fld j "world")
+  let co := bool! (fld j "cache")
+  let initEntries := (arr! (fld j "init")).map mkEntry
+  let r0 := initEntries.foldl Utv.C16.register { cacheOn := co }
+  let progs := (arr! (fld j "threads")).map fun t => (arr! t).map mkROp
+  let trace := (arr! (fld j "trace")).map fun e => match arr! e with
+    | [t, l] => (nat! t, str! l) | _ => (0, "")
+  let s0 := Reg2.init r0.entries [] (fun k => progs.getD k [])
+  let (s, bad) := replayReg2 W co s0 trace 0
+  let tids := List.range progs.length
+  let outs := tids.map fun k => Json.arr ((s.th k).outs.map resJson).toArray
+  let wits := tids.map fun k => Json.arr ((s.th k).wits.map fun w =>
+      Json.arr #[Json.num (JsonNumber.fromNat w.cls), Json.num (JsonNumber.fromNat w.lo),
+                 Json.num (JsonNumber.fromNat w.j), Json.num (JsonNumber.fromNat w.hi)]).toArray
+  let pcs := tids.map fun k => Json.str (s.th k).pc.label
+  let n := nat! (fld j "nclasses")
+  let post := ((List.range n).foldl (fun (acc : Utv.C16.Reg × List Json) c =>
+      let (r', o) := Utv.C16.resolve W acc.1 c
+      (r', acc.2 ++ [resJson (.fn o)])) ({ entries := s.g.entries, cache := s.g.cache, cacheOn := co }, [])).2
+  Json.mkObj [
+    ("follows", Json.bool bad.isNone),
+    ("at", match bad with | some (k, _) => Json.num k | none => Json.null),
+    ("model_label", match bad with | some (_, l) => Json.str l | none => Json.null),
+    ("outs", Json.arr outs.toArray), ("wits", Json.arr wits.toArray), ("pcs", Json.arr pcs.toArray),
+    ("post", Json.arr post.toArray), ("versions", Json.num (JsonNumber.fromNat s.g.vers.length)),
+    ("generation", Json.num (JsonNumber.fromNat s.g.gen)),
+    ("alone", Json.arr (progs.map fun ops => Json.arr ((Reg.answers W r0.entries ops).map resJson).toArray).toArray)]
 end Registry
 
 def handle (j : Json) : Json :=
   match str! (fld j "op") with
   | "fwd" => handleFwd j
   | "registry" => handleReg j
+  | "registry2" => handleReg2 j
   | o => Json.mkObj [("driver-error", Json.str ("unknown op " ++ o))]
 
 def main : IO Unit := serve handle
